@@ -226,6 +226,97 @@ def rule_drv_flow(ctx):
     return r
 
 
+def _layout_of(expr_or_stmt, P='P', M='M'):
+    """layout of the combined (direction, output-row) axis produced/consumed by a construct:
+    'BLOCK'       index j <-> (p, m) = (j // M, j % M)   (p outer)
+    'INTERLEAVED' index j <-> (p, m) = (j % P, j // P)   (m outer)
+    None: not recognised"""
+    n = expr_or_stmt
+    txt = norm(n)
+    # slice p*M:(p+1)*M on the combined axis
+    for sub in ast.walk(n):
+        if isinstance(sub, ast.Slice) and sub.lower is not None and sub.upper is not None:
+            lo, hi = norm(sub.lower).replace(' ', ''), norm(sub.upper).replace(' ', '')
+            if lo in ('p*%s' % M, '%s*p' % M) and hi in ('(p+1)*%s' % M, '%s*(p+1)' % M):
+                return 'BLOCK'
+            if lo in ('m*%s' % P, '%s*m' % P) and hi in ('(m+1)*%s' % P, '%s*(m+1)' % P):
+                return 'INTERLEAVED'
+    for c in ast.walk(n):
+        if isinstance(c, ast.Call):
+            d = dotted_name(c.func) or ''
+            last = c.func.attr if isinstance(c.func, ast.Attribute) else d.split('.')[-1]
+            if last == 'reshape':
+                args = c.args
+                shp = args[-1] if args else None
+                if isinstance(shp, ast.BinOp) and isinstance(shp.op, ast.Add):
+                    shp = shp.left
+                if isinstance(shp, ast.Tuple) and len(shp.elts) >= 3:
+                    names = [norm(e) for e in shp.elts[:3]]
+                    if names[1:] == [P, M]:
+                        return 'BLOCK'
+                    if names[1:] == [M, P]:
+                        return 'INTERLEAVED'
+            if last == 'repeat' and len(c.args) >= 2:
+                if norm(c.args[1]) == M:
+                    return 'BLOCK'          # each direction repeated M times in a row
+                if norm(c.args[1]) == P:
+                    return 'INTERLEAVED'
+            if last == 'tile' and len(c.args) >= 2 and isinstance(c.args[1], ast.Tuple):
+                reps = [norm(e) for e in c.args[1].elts]
+                if M in reps and P not in reps:
+                    return 'INTERLEAVED'    # whole block of P directions repeated M times: j -> p = j % P
+                if P in reps and M not in reps:
+                    return 'BLOCK'          # eye(M) tiled P times: row j -> m = j % M
+    return None
+
+
+def rule_drv_layout(ctx):
+    r = RuleResult('R-drv-layout', 'CGraph.jacobian with a Taylor-polynomial argument: the replication of the P input directions M times, '
+                                   'the adjoint seed and the final reshape agree on the layout of the combined (direction, output row) axis')
+    m = ctx.model
+    fi = m.func(TRACER, 'CGraph.jacobian')
+    # the UTPM branch
+    br = None
+    for n in walk_no_nested(fi.node):
+        if isinstance(n, ast.If) and 'isinstance(x, algopy.UTPM)' in norm(n.test):
+            br = n.body
+    if br is None:
+        r.unknown(fi.site(), 'UTPM branch of CGraph.jacobian not found')
+        return r
+    parts = {}
+    for st in br:
+        for sub in [st] + list(ast.walk(st)):
+            if not isinstance(sub, (ast.Assign, ast.Return)):
+                continue
+            txt = norm(sub)
+            tgt = norm(sub.targets[0]) if isinstance(sub, ast.Assign) else 'return'
+            lay = _layout_of(sub)
+            if lay is None:
+                continue
+            if tgt.startswith('tmp'):
+                parts.setdefault('input replication', []).append((lay, sub))
+            elif tgt.startswith('ybar'):
+                parts.setdefault('adjoint seed', []).append((lay, sub))
+            elif tgt == 'return':
+                parts.setdefault('result reshape', []).append((lay, sub))
+    for k in ('input replication', 'adjoint seed', 'result reshape'):
+        if k not in parts:
+            r.unknown(fi.site(), 'layout of the %s not recognised' % k)
+    if len(parts) == 3 and not r.unknowns:
+        lays = {k: {l for l, _ in v} for k, v in parts.items()}
+        allv = set().union(*lays.values())
+        if len(allv) == 1:
+            r.ok(construct='jacobian-layout', nontrivial=True,
+                 sample='CGraph.jacobian(UTPM): %s all %s' % (', '.join('%s `%s`' % (k, norm(v[0][1])[:50]) for k, v in parts.items()), allv.pop()))
+        else:
+            desc = '; '.join('%s: %s (`%s`)' % (k, '/'.join(sorted(l)), norm(parts[k][0][1])[:60]) for k, l in lays.items())
+            r.bad(Finding('R-drv-layout', _f(fi), 'layout:' + '|'.join('%s=%s' % (k, '/'.join(sorted(l))) for k, l in sorted(lays.items())),
+                          'CGraph.jacobian(UTPM): the combined (direction, output row) axis is laid out inconsistently: %s - Jacobian rows are '
+                          'expanded along the wrong curve' % desc, fi.file, fi.lineno))
+    r.floor = 1
+    return r
+
+
 # ------------------------------------------------------------------- C05
 NON_RECORDING = {'__init__', '__repr__', '__str__', 'get_shape', 'get_ndim', 'get_size', 'get_flat', 'dtype',
                  '_get_val', '__lt__', '__le__', '__gt__', '__ge__', '__eq__', 'xbar_from_x', 'totype', 'create',
